@@ -16,11 +16,15 @@ def run(ctx):
     from . import guardvocab
     guardvocab.G0(ctx, effects={'release', 'join', 'acquire'})
     guardvocab.G1(ctx, effects={'release', 'join', 'acquire'})
-    g_sync.run_all(ctx, ["Y2", "Y3", "Y4", "O4", "Y1c"])
+    guardvocab.G2(ctx, scopes=('rt::atomic::', 'rt::synchronize::', 'rt::vv::'))
+    guardvocab.G3(ctx, scopes=('rt::atomic::', 'rt::synchronize::', 'rt::vv::', 'sync::atomic::'))
+    g_sync.run_all(ctx, ["Y1:atomic", "Y2", "Y3", "Y4", "O4", "Y1c"])
     from . import atomics
     atomics.O1(ctx)
     atomics.O2(ctx)
     atomics.O3(ctx)
     atomics.M5(ctx)
+    atomics.R1(ctx)
+    atomics.N5(ctx)
     atomics.M5b(ctx)
     atomics.M6(ctx)
